@@ -16,7 +16,6 @@ import (
 	"strconv"
 	"sync"
 
-	"verif/verdict"
 )
 
 const idxStream = "index-boundary"
@@ -31,7 +30,7 @@ func fileIndex(name string) int {
 
 // idxObserve counts, at every start of a directory of this family, what is on
 // disk beyond the 3-digit names.
-func idxObserve(c *verdict.Ctx, m *model) {
+func idxObserve(c vctx, m *model) {
 	long, markers := 0, 0
 	for _, f := range m.Files {
 		if len(f.Name) > len(headName)+4 {
@@ -57,7 +56,7 @@ func idxObserve(c *verdict.Ctx, m *model) {
 	}
 }
 
-func runIdxCase(c *verdict.Ctx, idx int, base string) {
+func runIdxCase(c vctx, idx int, base string) {
 	r := c.Rand(idxStream, idx)
 	cfg := histCfg{HeadLimit: int64(200 + r.Intn(1000)), Cycles: 2 + r.Intn(2)}
 	if r.Intn(2) == 0 {
@@ -73,6 +72,7 @@ func runIdxCase(c *verdict.Ctx, idx int, base string) {
 	hs.rep = &reporter{c: c, hist: idx, cfg: cfg, stream: idxStream}
 	// phase 0: genuine files, written by the real WAL without pruning
 	m := newModel(cfg.HeadLimit, 0)
+	defer attachSink(m, idxStream, idx)()
 	dir, err := os.MkdirTemp(hb, "d")
 	if err != nil {
 		c.HarnessError("mkdir: %v", err)
@@ -156,38 +156,3 @@ func runIdxCase(c *verdict.Ctx, idx int, base string) {
 	hs.cycles(r, cfg, m2, lv2)
 }
 
-func runIdx(c *verdict.Ctx, base string) {
-	if rp := c.Replay(); rp != "" {
-		var w struct {
-			Stream string `json:"stream"`
-			Index  int    `json:"index"`
-		}
-		if err := verdict.LoadReplay(rp, &w); err == nil && w.Stream == idxStream {
-			runIdxCase(c, w.Index, base)
-		}
-		return
-	}
-	n := c.N(150, 4000)
-	if s := os.Getenv("VERIF_C15_IDX_N"); s != "" { // debugging aid
-		fmt.Sscan(s, &n)
-	}
-	jobs := make(chan int, 64)
-	var wg sync.WaitGroup
-	for w := 0; w < 2*runtime.NumCPU(); w++ {
-		wg.Add(1)
-		go func() {
-			defer wg.Done()
-			for i := range jobs {
-				runIdxCase(c, i, base)
-			}
-		}()
-	}
-	for i := 0; i < n; i++ {
-		jobs <- i
-	}
-	close(jobs)
-	wg.Wait()
-	if c.Counter("rotations_to_index_of_4_or_more_digits") == 0 || c.Counter("idx_starts_with_files_of_4_or_more_digits") == 0 {
-		c.HarnessError("C15a index-boundary family observed nothing: no rotation to a 4-digit index followed by a restart happened")
-	}
-}
